@@ -11,6 +11,9 @@ for t in ("i8", "u8"):
       clause="all a,b of the type, all f32 x in [0,1]: min<=r<=max, conversion never panics", solver="kissat", timeout=900)
     k("law_%s::same_value" % t, *LERP, ["C14"], "contract", tier="thorough", function="<%s as Lerp>::lerp" % t,
       clause="all a, all f32 x in [0,1]: lerp(a,a,x)==a", solver="kissat", timeout=900)
+for t in ("i8", "u8", "i16", "u16", "i32", "u32", "i64", "u64", "usize"):
+    k("nearest_grid16_%s" % t, *LERP, ["C14"], "contract", function="<%s as Lerp>::lerp" % t,
+      clause="result is the real interpolation rounded to nearest (exact integer oracle)", bound="x on the 17-point grid k/16; |a|,|b| < 4096 (whole range for i8/u8)")
 k("f32_endpoints", *LERP, ["C14", "C02"], "contract", function="<f32 as Lerp>::lerp", clause="finite a,b: lerp(a,b,0)==a, lerp(a,b,1)==b exactly")
 k("f64_endpoints", *LERP, ["C14"], "contract", function="<f64 as Lerp>::lerp", clause="a,b exactly representable in f32: endpoints exact")
 k("canary_must_fail", *LERP, ["C14"], "canary")
@@ -48,7 +51,7 @@ k("canary_must_fail", *SUB, ["C01", "C02", "C08", "C10"], "canary")
 TL = ("timeline::verif_timeline", "mina_core", "core/src/verif_timeline.rs")
 OM = ["TimeScale::get_position"]
 for n in range(5):
-    k("prepare_frame_n%d" % n, *TL, ["C01", "C02", "C08", "C10"], "contract", function="prepare_frame",
+    k("prepare_frame_n%d" % n, *TL, ["C01", "C02", "C08", "C09", "C10"], "contract", function="prepare_frame",
       clause="None iff no keyframes; NotStarted=>(0%%,override on); Ended(p)=>(p,off); Active=>(t, on iff !repeating&&!reversing); index brackets t (hint_ok); get_position replaced by an ARBITRARY result",
       bound="boundary_times.len() == %d (binary search unwound, unwinding assertions on)" % n)
     K[-1]["omit_contracts"] = OM
